@@ -90,6 +90,7 @@ type lockSys struct {
 	provs      []dist.LockProvider
 	provDown   []bool
 	lockers    []gsync.Locker
+	bystanders []gsync.Locker // lockers of other names handed out by the same providers
 	procs      []*lockProc
 	byGo       sync.Map // goroutine id -> proc id
 	events     []map[string]any
@@ -254,8 +255,21 @@ func newLockSys(lockerOf, provOf []int, variant string, lease time.Duration) (*l
 		s.provs = append(s.provs, p)
 		s.provDown = append(s.provDown, false)
 	}
+	// a provider hands out lockers for OTHER names too (never used here, only held): before the ones for "L" by the
+	// providers with an even number, afterwards by the others - lockers of one name share a lock whatever else their
+	// providers were asked for, in whatever order
+	for i, p := range s.provs {
+		if i%2 == 1 {
+			s.bystanders = append(s.bystanders, p.NewLocker("A"), p.NewLocker("L2"))
+		}
+	}
 	for _, pr := range provOf {
 		s.lockers = append(s.lockers, s.provs[pr-1].NewLocker("L"))
+	}
+	for i, p := range s.provs {
+		if i%2 == 0 {
+			s.bystanders = append(s.bystanders, p.NewLocker("B"), p.NewLocker("M"))
+		}
 	}
 	s.procs = append(s.procs, nil) // 1-based
 	for i, l := range lockerOf {
